@@ -11,8 +11,8 @@
    PARTIAL: whether a pandas operation returns a view or a copy is runtime behaviour the models cannot exhibit;
    they state ownership, the harness observes real in-place writes. *)
 From Coq Require Import ZArith List Bool.
-From V Require Import Model.Gate Model.HourlyState Model.Store.
-From V Require Import Proofs.GateProofs Proofs.SideEffectProofs Proofs.HourlyStateProofs Proofs.StoreProofs.
+From V Require Import Model.Gate Model.HourlyState Model.Store Model.Objects.
+From V Require Import Proofs.GateProofs Proofs.SideEffectProofs Proofs.HourlyStateProofs Proofs.StoreProofs Proofs.ObjectsProofs.
 Import ListNotations.
 
 (* ================= predict() never alters a fitted model; its result does not depend on earlier predictions ===== *)
@@ -95,6 +95,45 @@ Theorem C02_gate_history_independent : forall poor f ops s d i, no_fit ops = tru
   predict f (fst (Gate.run poor f s ops)) d i = predict f s d i.
 Proof. exact gate_history_independent. Qed.
 Print Assumptions C02_gate_history_independent.
+
+(* ================= several model objects in one process: "all interleavings with fits of other meters" =========== *)
+
+(* fitting, using or storing other model objects never changes what an object serialises to *)
+Definition C02_other_objects_statement (g : sharing) : Prop :=
+  forall ops w j y, nth_error (w_objs w) j = Some y -> (forall v, ~ In (WFit j v) ops) ->
+  serial g (wrun g w ops) j = serial g w j.
+
+Theorem C02_other_objects_untouched : C02_other_objects_statement no_sharing.
+Proof. exact (others_unchanged_l no_sharing (fun _ => eq_refl)). Qed.
+Print Assumptions C02_other_objects_untouched.
+
+(* ... exactly when no model class keeps per-fit state in a class-level container that instances fill in place *)
+Theorem C02_other_objects_iff : forall g, C02_other_objects_statement g <-> (forall c, g c = None).
+Proof. exact others_unchanged_iff. Qed.
+Print Assumptions C02_other_objects_iff.
+
+(* a class-level `error = {...}` on DailyModel (BillingModel inherits it): fitting a billing model on another meter
+   rewrites the document of a daily model that is only being used (seeded change C02-3) *)
+Definition daily_error_at_class_level (c : mclass) : option mclass :=
+  match c with MDaily | MBilling => Some MDaily | MHourly => None end.
+
+Theorem C02_other_objects_class_level_refuted :
+  (let w := wrun daily_error_at_class_level {| w_objs := []; w_class := fun _ => 0%Z |}
+                 [WNew MDaily; WFit 0 1%Z; WNew MBilling] in
+   serial daily_error_at_class_level w 0 = Some 1%Z /\
+   serial daily_error_at_class_level (wrun daily_error_at_class_level w [WFit 1 2%Z; WPredict 0]) 0 = Some 2%Z) /\
+  ~ C02_other_objects_statement daily_error_at_class_level.
+Proof.
+  split; [vm_compute; split; reflexivity|].
+  intros H. pose proof (proj1 (C02_other_objects_iff daily_error_at_class_level) H MDaily) as Q. discriminate Q.
+Qed.
+Print Assumptions C02_other_objects_class_level_refuted.
+
+Example C02_nonvacuous_objects :
+  let w := wrun no_sharing {| w_objs := []; w_class := fun _ => 0%Z |}
+                [WNew MDaily; WFit 0 1%Z; WNew MBilling; WFit 1 2%Z; WPredict 0; WNew MDaily; WFit 2 3%Z; WStore 1] in
+  serial no_sharing w 0 = Some 1%Z /\ serial no_sharing w 1 = Some 2%Z /\ serial no_sharing w 2 = Some 3%Z.
+Proof. vm_compute. repeat split; reflexivity. Qed.
 
 (* ================= fit() and predict() never modify the data objects; the data classes never modify the caller's
    frames; frames handed out are independent copies ================= *)
